@@ -91,6 +91,9 @@ func (ex *Exec) boolSlice(v Value) []*Term {
 // assertObl discharges one obligation PC => cond.
 func (ex *Exec) assertObl(cond *Term, label string) {
 	h := ex.H
+	if !h.wants(label) {
+		return
+	}
 	h.mu.Lock()
 	h.obligations++
 	h.oblLabels[label]++
@@ -118,10 +121,20 @@ func (ex *Exec) assertObl(cond *Term, label string) {
 }
 
 // assertGroup discharges several obligations with one query when they all hold.
-func (ex *Exec) assertGroup(parts []namedTerm, label string) {
+func (ex *Exec) assertGroup(all0 []namedTerm, label string) {
 	var cs []*Term
-	for _, p := range parts {
-		cs = append(cs, p.t)
+	var parts []namedTerm
+	for _, p := range all0 {
+		if strings.HasPrefix(p.name, "B:") {
+			continue // stated bounds are assumed on havoc'd states, never checked
+		}
+		if ex.H.wants(label + ":" + p.name) {
+			parts = append(parts, p)
+			cs = append(cs, p.t)
+		}
+	}
+	if len(parts) == 0 {
+		return
 	}
 	all := ex.tt.And(cs...)
 	ex.sol.what = "assert-group " + label
@@ -323,6 +336,10 @@ func init() {
 
 func (ex *Exec) mapEq(x, y *MapObj) *Term {
 	tt := ex.tt
+	if x != nil && y != nil && x.src != nil && y.src != nil {
+		// both are decodings of canonical encodings: equal maps <=> equal encodings
+		return tt.Eq(x.src, y.src)
+	}
 	arr := func(m *MapObj) (*Term, *Term) {
 		if m == nil {
 			return tt.ConstArr(SArrSB, tt.Bool(false)), tt.ConstArr(SArrSS, tt.Str(""))
@@ -548,7 +565,9 @@ func init() {
 		// NULL column decodes to the empty map
 		has := tt.Ite(v.null, tt.ConstArr(SArrSB, tt.Bool(false)), decMapHas(tt, v.v))
 		val := tt.Ite(v.null, tt.ConstArr(SArrSS, tt.Str("")), decMapVal(tt, v.v))
-		return &MapV{m: ex.opaqueSymMap(has, val)}
+		m := ex.opaqueSymMap(has, val)
+		m.src = tt.Ite(v.null, ex.encMap(nil), v.v)
+		return &MapV{m: m}
 	})
 	rowm("MesgType", func(ex *Exec, rr *rowRef, a []Value) Value {
 		return ex.mesgField(rr.col(ex, "mesg").v, 0)
@@ -605,10 +624,12 @@ func init() {
 }
 
 func (ex *Exec) mesgField(s *Term, i int) *Term {
-	if s.op == "uf:jenc_message.Mesg" {
-		return s.args[i]
-	}
-	return ex.tt.UF(fmt.Sprintf("jdec_message.Mesg_%d", i), SString, s)
+	return liftIte(ex.tt, s, func(s *Term) *Term {
+		if s.op == "uf:jenc_message.Mesg" {
+			return s.args[i]
+		}
+		return ex.tt.UF(fmt.Sprintf("jdec_message.Mesg_%d", i), SString, s)
+	})
 }
 
 // sameDB: all rows of table (or all tables) are identical.
